@@ -17,6 +17,7 @@
 package url
 
 import (
+	"strconv"
 	"strings"
 )
 
@@ -35,8 +36,6 @@ type Url struct {
 	searchParams     *SearchParams
 	validationErrors []error
 	parser           *parser
-	isIPv4           bool
-	isIPv6           bool
 }
 
 // Href implements WHATWG url api (https://url.spec.whatwg.org/#api)
@@ -297,30 +296,43 @@ func (u *Url) newUrlSearchParams() {
 	u.searchParams = usp
 }
 
+// IsIPv4 tells if the host is an IPv4 address. Only URLs with a special scheme have IPv4 hosts
+// and the host parser always serializes them as four decimal numbers.
 func (u *Url) IsIPv4() bool {
-	return u.isIPv4
+	if u.host == nil || !u.IsSpecialScheme() {
+		return false
+	}
+	parts := strings.Split(*u.host, ".")
+	if len(parts) != 4 {
+		return false
+	}
+	for _, part := range parts {
+		if n, err := strconv.Atoi(part); err != nil || n < 0 || n > 255 || strconv.Itoa(n) != part {
+			return false
+		}
+	}
+	return true
 }
 
+// IsIPv6 tells if the host is an IPv6 address.
 func (u *Url) IsIPv6() bool {
-	return u.isIPv6
+	return u.host != nil && strings.HasPrefix(*u.host, "[")
 }
 
 // Clone returns a deep copy of the URL.
 func (u *Url) Clone() *Url {
 	c := &Url{
-		inputUrl:     u.inputUrl,
-		scheme:       u.scheme,
-		username:     u.username,
-		password:     u.password,
-		host:         cloneStringPointer(u.host),
-		port:         cloneStringPointer(u.port),
-		decodedPort:  u.decodedPort,
-		path:         u.path.clone(),
-		query:        cloneStringPointer(u.query),
-		fragment:     cloneStringPointer(u.fragment),
-		parser:       u.parser,
-		isIPv4:       u.isIPv4,
-		isIPv6:       u.isIPv6,
+		inputUrl:    u.inputUrl,
+		scheme:      u.scheme,
+		username:    u.username,
+		password:    u.password,
+		host:        cloneStringPointer(u.host),
+		port:        cloneStringPointer(u.port),
+		decodedPort: u.decodedPort,
+		path:        u.path.clone(),
+		query:       cloneStringPointer(u.query),
+		fragment:    cloneStringPointer(u.fragment),
+		parser:      u.parser,
 	}
 	if u.searchParams != nil {
 		c.searchParams = u.searchParams.Clone()
